@@ -75,6 +75,7 @@ func DefaultIntents() []Intent {
 		{"accelerator-project", intentProject}, {"accelerator-vote", intentVote},
 		{"accelerator-add-phase", intentAddPhase}, {"accelerator-update-phase", intentUpdatePhase},
 		{"swap-retrieve", intentSwapRetrieve}, {"pillar-register-legacy", intentRegisterLegacy},
+		{"accelerator-voting-ends", intentVotingEnds},
 	}
 }
 
@@ -581,6 +582,36 @@ func intentVote(h *Hist) bool {
 	return h.call(from, types.AcceleratorContract, types.ZnnTokenStandard, big.NewInt(0), data, fmt.Sprintf("accelerator.VoteByName(%s, %s)", id.String()[:8], ps.Name))
 }
 
+// intentVotingEnds: time passes until the voting period of a project that is still under vote has ended (the next
+// accelerator update closes it), once per project.
+func intentVotingEnds(h *Hist) bool {
+	st := h.A.Chain.GetFrontierAccountStore(types.AcceleratorContract).Storage()
+	list, err := definition.GetProjectList(st)
+	if err != nil {
+		return false
+	}
+	now := h.A.Frontier().Timestamp.Unix()
+	for _, p := range list {
+		if p.Status == definition.VotingStatus && constants.AcceleratorProjectVotingPeriod <= 4000 {
+			left := p.CreationTimestamp + constants.AcceleratorProjectVotingPeriod - now
+			if left < 0 {
+				continue // the update that closes it is due anyway
+			}
+			if h.C.Weighted("ve.really", 2, 1) == 0 {
+				return false
+			}
+			if !h.Produce(int(left/10) + h.C.Int("ve.offset", -1, 2)) {
+				return false
+			}
+			for i := 0; i < int(constants.UpdateMinNumMomentums)+1 && !h.Dead; i++ {
+				h.Produce(0)
+			}
+			return true
+		}
+	}
+	return false
+}
+
 // projectOwner returns the creator of the project whose id is the hash of its creating send.
 func (h *Hist) projectOwner(id types.Hash) (types.Address, bool) {
 	for _, s := range h.Sends {
@@ -601,8 +632,28 @@ func phaseCall(h *Hist, method, pfx string) bool {
 	if !ok || c.Weighted(pfx+".byOther", 6, 1) == 1 {
 		from = h.user(pfx + ".from")
 	}
-	data := definition.ABIAccelerator.PackMethodPanic(method, id, fmt.Sprintf("phase-%d", c.Int(pfx+".n", 0, 9)), "a verif phase", "www.verif.test",
-		zq(int64(c.Int(pfx+".znn", 0, 5000))), zq(int64(c.Int(pfx+".qsr", 0, 50000))))
+	znn, qsr := zq(int64(c.Int(pfx+".znn", 0, 5000))), zq(int64(c.Int(pfx+".qsr", 0, 50000)))
+	if c.Weighted(pfx+".remaining", 2, 1) == 1 {
+		// exactly what the project has not received yet (its last phase: the project completes when it is paid),
+		// sometimes one unit more
+		if pr, err := definition.GetProjectEntry(h.A.Chain.GetFrontierAccountStore(types.AcceleratorContract).Storage(), id); err == nil && pr != nil {
+			rz, rq := new(big.Int).Set(pr.ZnnFundsNeeded), new(big.Int).Set(pr.QsrFundsNeeded)
+			for _, pid := range pr.PhaseIds {
+				if ph, err := definition.GetPhaseEntry(h.A.Chain.GetFrontierAccountStore(types.AcceleratorContract).Storage(), pid); err == nil && ph != nil && ph.Status == definition.PaidStatus {
+					rz.Sub(rz, ph.ZnnFundsNeeded)
+					rq.Sub(rq, ph.QsrFundsNeeded)
+				}
+			}
+			if rz.Sign() >= 0 && rq.Sign() >= 0 {
+				znn, qsr = rz, rq
+				if c.Weighted(pfx+".over", 5, 1) == 1 {
+					znn = new(big.Int).Add(znn, big.NewInt(1))
+				}
+				c.Class("phase-for-the-remaining-funds")
+			}
+		}
+	}
+	data := definition.ABIAccelerator.PackMethodPanic(method, id, fmt.Sprintf("phase-%d", c.Int(pfx+".n", 0, 9)), "a verif phase", "www.verif.test", znn, qsr)
 	return h.call(from, types.AcceleratorContract, types.ZnnTokenStandard, big.NewInt(0), data, fmt.Sprintf("accelerator.%s(%s)", method, id.String()[:8]))
 }
 
